@@ -28,3 +28,25 @@ Proof. intros H. change 0 with (inject_Z 0). rewrite <- Zlt_Qlt. exact H. Qed.
 
 Lemma Zleb_pos_false z : (0 < z)%Z -> Z.leb z 0 = false.
 Proof. intros. apply Z.leb_gt. assumption. Qed.
+
+Lemma bind_ok {A B} (r : res A) (f : A -> res B) v :
+  bind r f = Ok v -> exists a, r = Ok a /\ f a = Ok v.
+Proof. destruct r; cbn; intros H; [eauto | discriminate]. Qed.
+
+(* decompose a hypothesis [bind r f = Ok v] *)
+Ltac bind_inv H :=
+  let a := fresh "a" in let Ha := fresh "Hr" in
+  apply bind_ok in H; destruct H as [a [Ha H]].
+
+Lemma Zleb_false_pos z : Z.leb z 0 = false -> (0 < z)%Z.
+Proof. intros H. apply Z.leb_gt in H. exact H. Qed.
+
+(* exhaustively decompose hypotheses  bind r f = Ok v  /  Ok a = Ok b *)
+Ltac res_inv :=
+  repeat match goal with
+  | H : bind _ _ = Ok _ |- _ =>
+      let a := fresh "a" in let Ha := fresh "Hr" in
+      apply bind_ok in H; destruct H as [a [Ha H]]
+  | H : Ok _ = Ok _ |- _ => inversion H; subst; clear H
+  | H : Raise _ = Ok _ |- _ => discriminate H
+  end.
